@@ -32,6 +32,10 @@ CLAIMED = {
    text="Kernel-checked refinement: the Gallina model of RemoteJob (execute, poll with the retry counter, cancel, rerun, get_results, execute_sync) produces, on EVERY finite trace of client actions x server answers from every state, the outputs of the specification automaton of the statement (C17_refinement_repaired), with corollaries: sent at most once, final statuses absorbing with no request afterwards, four transient failures absorbed and every later consecutive one raised, success resets, fatal errors raise at once, results/cancel/rerun guards. The pre-repair code is kept as a second configuration with vm_compute-refuted witnesses (double send; sixth failure absorbed) — both repaired in /repo by fix commits. The model is tied to /repo by running the real RemoteJob + RPCHandler under `responses` on all traces of length <= 4 over a 14-symbol alphabet (prefix tree), all failure runs of length <= 8 and random long multi-job traces, comparing outcome, exception class, identifiers, HTTP requests received and white-box state at every step.",
    note="All theorems closed under the global context. Read time-outs, malformed 200 bodies and from_id are outside the modelled alphabet.",
    tech="Coq refinement proof (implementation state machine = specification automaton on all traces) + exhaustive short-trace and random long-trace correspondence"),
+ "C10": dict(cat="proof", ref="DESIGN.md §7 C10, Appendix A.1, §9 rows 13 and 15",
+   text="Kernel-checked theorems for ALL sizes and ALL injective mappings (any order, with gaps), over any commutative ring: the vector built by generate_permutation (faithful translation, missing modes filled with max+1) is a permutation of its span and wires every mapped mode (perm_vect[k-min]=v); the segment inserted for an added processor [PERM; block; PERM^-1] is the conjugation of the embedded block by the mode permutation, hence W[k',k]=U_right[v',v] for mapped pairs (light leaving k enters v and returns on k) and every mode that is not a key is fixed; for a plain component [PERM; block] the light of k enters v, untouched modes are fixed for gap-free mappings and the general statement is refuted by a witness (no inverse PERM); the heralds of the result are the old ones followed by one per herald of the added processor in order with the same expected value, on modes circuit_size+i, with their detectors appended (theorem about the model of Experiment.add on every accepted call); the post-selection re-expressed in the new numbering evaluates exactly as the original on the pulled-back state, the code's order (permute with first=c_first, then shift) is refuted by a witness and proved correct when min=0 or no PERM is needed; _check_consistency accepts exactly right size / available modes / distinct values and PERM's constructor accepts exactly permutations. The model (mapping resolution for int/list/dict/port names, consistency, permutation, ports, heralds, detectors, post-selection transfer, late failures) is tied to /repo by straight-line programs over processor variables generated against the live objects (left and right processors built in one piece or component by component, heralds anywhere, ports, detectors, post-selection, 1-3 plugs through offset/list/dict/name mappings, a malformed stream), comparing after every statement accept/reject, sizes, the unitary (1e-9), heralds, detectors, ports, mode types and post_select_fn on all states with <= 2 photons, and deciding the statement's literal reading on the real matrices.",
+   note="All theorems closed under the global context. simplify() and PERM fusion are not modelled (C11): deviations would appear as matrix mismatches and are classified by re-running with simplify disabled. Four open findings (known_findings.json) are re-found on every run: gapped plain component moves an untouched mode; post-selection re-expressed wrongly when min>0; dictionary entry port-name->int always refused; multi-mode port re-attached beyond the circuit blocks the next heralded plug.",
+   tech="Coq proof (list permutations, conjugation by permutation matrices, induction over port lists) + extracted-model differential correspondence on generated construction programs"),
 }
 REASON_PENDING = "not yet built in this development (see DESIGN.md §10 for the build order); no check is claimed"
 
